@@ -144,8 +144,11 @@ func monitorLoad(cf *Config, r *JobResult) []c.Hit {
 	if r.Accepted {
 		switch r.EngineLoad {
 		case "error":
-			add("accepted-but-load-fails", "accepted by the validator => the gateway loads the files",
-				"streams.NewStream().Initialize(): "+r.EngineText)
+			obs := "streams.NewStream().Initialize(): " + r.EngineText
+			if r.Runs != "" {
+				obs += " [" + r.Runs + "]"
+			}
+			add("accepted-but-load-fails", "accepted by the validator => the gateway loads the files", obs)
 		case "panic":
 			add("accepted-load-panic:"+panicWhere(r.EngineText), "accepted => loading succeeds", r.EngineText)
 		case "crash", "timeout":
